@@ -10,6 +10,7 @@ import Dhcp.Driver.Server
 import Dhcp.Driver.Misc
 import Dhcp.Driver.Lease
 import Dhcp.Driver.C03x
+import Dhcp.Driver.Lexer
 /-
   Line protocol driver: one operation per input line, one canonical line out.
   `lake build dhcp-driver` compiles it; the Go harness pipes the same lines
@@ -20,7 +21,7 @@ import Dhcp.Driver.C03x
 open Dhcp.Driver Dhcp.Driver.Cli Dhcp.Driver.Lse
 
 def families : List (String → List String → Option String) :=
-  [stepV4, stepLabel, stepRaw, stepV4Acc, stepV4Build, stepV6, stepV6Build, stepClient, stepServer, stepMisc, stepLease, stepC03x]
+  [stepV4, stepLabel, stepRaw, stepV4Acc, stepV4Build, stepV6, stepV6Build, stepClient, stepServer, stepMisc, stepLease, stepC03x, stepLexer]
 
 def step (line : String) : String :=
   match (line.trimAscii.toString.splitOn " ").filter (· ≠ "") with
